@@ -91,6 +91,7 @@ type c12Fake struct {
 	epoch  int
 	opGID  int64
 	log    *c12Log
+	ns     string // the one namespace this component may write to
 	// fault plan for synchronous writes: the next Put on the op goroutine returns a transient error
 	failSync bool
 	// fault plan for deletes: the next Delete returns a transient error
@@ -124,6 +125,9 @@ func c12zero(key string) string {
 
 func (h *c12Handle) Put(ctx context.Context, ns, key string, value []byte) error {
 	f := h.f
+	if ns != f.ns {
+		f.log.add("BADNS:%s", ns)
+	}
 	lkey := key
 	key = ns + "\x00" + key
 	v := append([]byte(nil), value...)
@@ -164,6 +168,9 @@ func (h *c12Handle) Put(ctx context.Context, ns, key string, value []byte) error
 
 func (h *c12Handle) Delete(ctx context.Context, ns, key string) error {
 	f := h.f
+	if ns != f.ns {
+		f.log.add("BADNS:%s", ns)
+	}
 	f.mu.Lock()
 	if h.epoch != f.epoch {
 		f.mu.Unlock()
@@ -226,7 +233,13 @@ func (h *c12Handle) Load(ctx context.Context, ns string, fn opdb.LoadFunc) error
 func (h *c12Handle) Count(ctx context.Context, ns string) (int, error) {
 	h.f.mu.Lock()
 	defer h.f.mu.Unlock()
-	return len(h.f.data), nil
+	n := 0
+	for k := range h.f.data {
+		if strings.HasPrefix(k, ns+"\x00") {
+			n++
+		}
+	}
+	return n, nil
 }
 func (h *c12Handle) Clear(ctx context.Context, ns string) error { return nil }
 func (h *c12Handle) Stats() opdb.Stats                          { return opdb.Stats{} }
@@ -583,7 +596,9 @@ func c12PDIdx(n *net.IPNet, k int) string {
 
 func c12Profiles(n4, n6, kpd int) (map[string]*ip.IPv4Profile, map[string]*ip.IPv6Profile) {
 	v4 := map[string]*ip.IPv4Profile{"p4": {Gateway: "10.0.0.1", Pools: []ip.IPv4Pool{{
-		Name: "pool", Network: "10.0.0.0/26", RangeStart: c12V4(0).String(), RangeEnd: c12V4(n4 - 1).String()}}}}
+		Name: "pool", Network: "10.0.0.0/26", RangeStart: c12V4(0).String(), RangeEnd: c12V4(n4 - 1).String()}}},
+		// a second profile / pool nobody allocates from: reservations and releases walk ALL allocators and must leave it alone
+		"p4b": {Gateway: "10.0.1.1", Pools: []ip.IPv4Pool{{Name: "poolb", Network: "10.0.1.0/26", RangeStart: "10.0.1.8", RangeEnd: "10.0.1.11"}}}}
 	v6 := map[string]*ip.IPv6Profile{"p6": {
 		IANAPools: []ip.IANAPool{{Name: "iana", Network: "2001:db8:0:1::/64", RangeStart: c12V6(0).String(), RangeEnd: c12V6(n6 - 1).String()}},
 		PDPools:   []ip.PDPool{{Name: "pd", Network: "2001:db8:aa00::/56", PrefixLength: uint8(56 + kpd)}}}}
@@ -624,6 +639,56 @@ func c12Time(t0 time.Time, age string) time.Time {
 }
 
 func c12SessID(i int) string { return fmt.Sprintf("s%03d", i) }
+
+// identity of session i: neighbouring sessions differ in exactly ONE component of the protocol key
+// (C-VLAN, S-VLAN + access sub-interface, each MAC byte in turn), so a key function that ignores a component aliases them
+type c12ID struct {
+	mac          net.HardwareAddr
+	svlan, cvlan uint16
+	encap        uint32
+}
+
+var c12IDs = []c12ID{
+	{net.HardwareAddr{0x02, 0, 0, 0, 0, 0x10}, 100, 10, 10},
+	{net.HardwareAddr{0x02, 0, 0, 0, 0, 0x10}, 100, 11, 10},      // C-VLAN only
+	{net.HardwareAddr{0x02, 0, 0, 0, 0, 0x10}, 200, 10, 11},      // S-VLAN (and its sub-interface) only
+	{net.HardwareAddr{0x02, 0, 0, 0, 0x01, 0x10}, 100, 10, 10},   // MAC byte 4
+	{net.HardwareAddr{0x02, 0xaa, 0, 0, 0, 0x10}, 100, 10, 10},   // MAC byte 1
+	{net.HardwareAddr{0x06, 0, 0, 0, 0, 0x10}, 100, 10, 10},      // MAC byte 0
+	{net.HardwareAddr{0x02, 0, 0, 0, 0, 0x11}, 100, 10, 10},      // MAC byte 5
+	{net.HardwareAddr{0x02, 0, 0xbb, 0xcc, 0, 0x10}, 100, 0, 10}, // MAC bytes 2,3 and no C-VLAN
+}
+
+func c12Ident(i int) c12ID {
+	d := c12IDs[i%len(c12IDs)]
+	if i >= len(c12IDs) { // further sessions: same pattern on another S-VLAN
+		d.svlan, d.encap = 200, 11
+		d.cvlan += uint16(100 * (i / len(c12IDs)))
+	}
+	return d
+}
+
+func c12KeyStr(mac net.HardwareAddr, svlan, cvlan uint16) string {
+	return fmt.Sprintf("%x/%d/%d", []byte(mac), svlan, cvlan)
+}
+
+// the session whose full key this is (-1: nobody's)
+func c12IdxOfKey(mac net.HardwareAddr, svlan, cvlan uint16) int {
+	for i := 0; i < 4*len(c12IDs); i++ {
+		d := c12Ident(i)
+		if bytes.Equal(d.mac, mac) && d.svlan == svlan && d.cvlan == cvlan {
+			return i
+		}
+	}
+	return -1
+}
+
+func c12SvlanOfEncap(encap uint32) uint16 {
+	if encap == 11 {
+		return 200
+	}
+	return 100
+}
 
 // the protocol-specific part of the harness
 type c12Proto interface {
@@ -1102,15 +1167,32 @@ func (e *c12Env) dumpStore() string {
 	out := []string{}
 	for _, k := range keys {
 		if !strings.HasPrefix(k, e.ns+"\x00") {
-			out = append(out, "FOREIGN-NAMESPACE")
+			if string(e.fake.data[k]) != c12Decoys[k] {
+				out = append(out, "FOREIGN-NAMESPACE")
+			}
 			continue
 		}
 		out = append(out, e.p.dumpStored(e.fake.data[k], e.kpd))
+	}
+	for k := range c12Decoys {
+		if _, ok := e.fake.data[k]; !ok {
+			out = append(out, "DECOY-LOST")
+		}
 	}
 	if len(out) == 0 {
 		return "-"
 	}
 	return strings.Join(out, ",")
+}
+
+// records of OTHER namespaces under the very keys this component uses (the sibling protocol's sessions, the HA-synced
+// copies): restore must not load them, release must not delete them
+var c12Decoys = map[string]string{
+	opdb.NamespaceIPoESessions + "x\x00s000":       "decoy",
+	"x" + opdb.NamespacePPPoESessions + "\x00s000": "decoy",
+	opdb.NamespaceHASyncedIPoE + "\x00s000":        "decoy",
+	opdb.NamespaceHASyncedPPPoE + "\x00s001":       "decoy",
+	opdb.NamespaceAcctSessions + "\x00s000":        "decoy",
 }
 
 func (e *c12Env) alloc(n c12New) (net.IP, net.IP, *net.IPNet, string) {
@@ -1207,7 +1289,14 @@ func (e *c12Env) drain() string {
 		}
 		return strings.Join(s, ",")
 	}
-	return "free4=" + j(f4) + " free6=" + j(f6) + " freepd=" + j(fp)
+	nb := 0
+	for i := 0; i < 64; i++ {
+		if _, _, err := reg.AllocateFromProfile("p4b", "", "", "drain"); err != nil {
+			break
+		}
+		nb++
+	}
+	return "free4=" + j(f4) + " free6=" + j(f6) + " freepd=" + j(fp) + " freeb=" + strconv.Itoa(nb)
 }
 
 func (e *c12Env) runCase(f []string) string {
@@ -1580,6 +1669,10 @@ func c12Run(t *testing.T, mk func(e *c12Env) c12Proto, dpPrefix string, ns strin
 			e := &c12Env{log: lg, fake: &c12Fake{data: map[string][]byte{}, log: lg, opGID: -2, failDelKeys: map[string]bool{}, delAttempts: map[string]int{}}, sb: newC12SB(lg, dpPrefix),
 				bus: &c12Bus{log: lg}, cache: newC12Cache(), tickets: map[int]*c12Put{}, unarrived: map[int]c12Want{}, forced: map[int]bool{}, poisonLater: map[int]int{}, asc: true, used: map[int]bool{}, t0: time.Now()}
 			e.ns = ns
+			e.fake.ns = ns
+			for k, v := range c12Decoys {
+				e.fake.data[k] = []byte(v)
+			}
 			e.n4, _ = strconv.Atoi(f[1])
 			e.n6, _ = strconv.Atoi(f[2])
 			e.kpd, _ = strconv.Atoi(f[3])
